@@ -151,7 +151,7 @@ def tests(tier):
     return [
         TestSpec(
             "leaf-filter",
-            lambda shape: G.from_gen(lambda r: gen_case(r, shape)),
+            gen_case,
             body,
             {"quick": 40, "thorough": 30000},
             factors=model.leaf_shapes(),
